@@ -13,30 +13,45 @@ def gen (k : Nat) : G (List String) := do
     let exps ← genExporters
     let mut clock := 1700000000000000000
     -- prologue: per exporter, version: a data template, an options template with a sampling element, a rate
-    let mut scopes : List (Nat × Nat × Nat × Nat × List SField) := []    -- exporter idx, version, domain, tid, layout
+    let mut scopes : List (Nat × Nat × Nat × Nat × List SField × Nat) := []    -- exporter idx, version, domain, tid, layout, rate
     for ei in [0:exps.length] do
       for version in [9, 10] do
         let dom ← range 1 3
         let tid ← range 256 260
         let fs ← genFields version
         let otid := tid + 10
-        let rate ← range 1 100000
+        -- the sampling state is per exporter address (not port), version and domain: two sockets of one address
+        -- announce one and the same rate, so that a refresh in the parallel part changes nothing
+        let rate0 ← range 1 100000
+        let ip := (exps.getD ei default).ip
+        let rate := match scopes.find? (fun sc => (exps.getD sc.1 default).ip == ip ∧ sc.2.1 == version ∧ sc.2.2.1 == dom) with
+          | some sc => sc.2.2.2.2.2
+          | none => rate0
         let sets : List SSet := [.template [(tid, fs)] 0,
           (if version = 9 then .v9opts [(otid, [], [⟨34, 4, none⟩])] 0 else .ipfixopts [(otid, [], [⟨34, 4, none⟩])] 0),
           .optsData otid [] [⟨34, 4, none⟩] [([], [⟨encBE 4 rate, false⟩])] 0]
         let m : Msg := ⟨version, 3, 1000, 1700000000, 1, dom, sets⟩
         clock := clock + 1000
         out := out ++ [pktLine pipe (exps.getD ei default) clock (encode m)]
-        scopes := scopes ++ [(ei, version, dom, tid, fs)]
+        scopes := scopes ++ [(ei, version, dom, tid, fs, rate)]
     -- parallel part: data only
     let n ← range 20 80
     for _ in [0:n] do
       clock := clock + 1000
       let kind ← below 10
       if kind < (if pipe = "nf" then 6 else 4) then
-        let (ei, version, dom, tid, fs) ← pick scopes
+        let (ei, version, dom, tid, fs, rate) ← pick scopes
         let s ← genDataSet tid (.data fs) 8
-        let m0 : Msg := ⟨version, 0, ← bitsVal 32, ← bitsVal 32, ← bitsVal 32, dom, [s]⟩
+        -- exporters resend their templates and sampling options periodically: the same template / the same rate
+        -- again, next to the data, while other workers cut data sets of the same exporter with it
+        let refresh ← below 6
+        let otid := tid + 10
+        let pre : List SSet := if refresh = 0 then [.template [(tid, fs)] 0]
+          else if refresh = 1 then [.template [(tid, fs)] 0,
+            (if version = 9 then .v9opts [(otid, [], [⟨34, 4, none⟩])] 0 else .ipfixopts [(otid, [], [⟨34, 4, none⟩])] 0),
+            .optsData otid [] [⟨34, 4, none⟩] [([], [⟨encBE 4 rate, false⟩])] 0]
+          else []
+        let m0 : Msg := ⟨version, 0, ← bitsVal 32, ← bitsVal 32, ← bitsVal 32, dom, pre ++ [s]⟩
         let m := { m0 with count := max (totalRecords m0) 1 }
         out := out ++ ["stage " ++ ((pktLine pipe (exps.getD ei default) clock (encode m)).drop 4).toString]
       else if kind < 6 ∨ pipe = "nf" then
